@@ -272,6 +272,11 @@ example : WF (.seq [.base .int32 []]) (.rows []) = true ∧ WF (.seq [.base .str
   decide
 example : (Src.struct [.arr exRepA, .val (.base .string []) (.scalar (.str []))]).view?
     = (Src.struct [.arr exRepB, .val (.base .string []) (.scalar (.str []))]).view? := by rfl
+example : ∃ bs, encSrc (.struct [.arr exRepA, .val (.base .string []) (.scalar (.str []))]) = .ok bs ∧
+    encSrc (.struct [.arr exRepB, .val (.base .string []) (.scalar (.str []))]) = .ok bs ∧
+    clientRead (.struct [.base .int16 [3], .base .string []]) ([32] ++ [10] ++ dataMarker ++ bs)
+      = some ([32], .ok (.tuple [.array [.num 1, .num (-2), .num 3], .scalar (.str [])], [])) :=
+  C01_representation_independent_dataset _ _ [32] _ _ (by rfl) (by rfl) (by decide) (by decide)
 
 
 end Pydap.C01
